@@ -409,7 +409,7 @@ func (w *SigWorker) Continue(tr *Trace, path []SOp, verifyLast bool) error {
 			if (len(sig) > 0) != (res == core.ResultSucceeded) {
 				tr.SigProblems = append(tr.SigProblems, fmt.Sprintf("signature presence %v with result %s for %s", len(sig) > 0, resLetter(res), op))
 			}
-		case "msign-prop-first", "msign-prop-last", "msign-att-first", "msign-att-last":
+		case "msign-prop-first", "msign-prop-last", "msign-att-first", "msign-att-last", "msign-prop-split36", "msign-prop-split28", "msign-att-split36", "msign-att-split28":
 			// The slashable object travels through the generic batch endpoint: Ents[0] under its slashable domain type
 			// (the data field holds the header root or the attestation data root), beside an ordinary generic entry for
 			// the account Ents[1].Key. A signature that is valid for the slashable object counts as a release of it.
@@ -427,6 +427,14 @@ func (w *SigWorker) Continue(tr *Trace, path []SOp, verifyLast bool) error {
 			benign[0] = 7
 			names := []string{"Wallet 1/" + a.Name(), "Wallet 1/" + comp.Name()}
 			data := []*rules.SignData{{Domain: dom, Data: root[:]}, {Domain: benign, Data: pat(0x66)}}
+			if strings.Contains(op.Kind, "-split") {
+				// The same 64 bytes (object root, then domain) cut elsewhere than after byte 32: whatever looks at the
+				// first bytes of the domain field then sees something else than the domain type.
+				var cut int
+				fmt.Sscanf(op.Kind[strings.Index(op.Kind, "-split")+6:], "%d", &cut)
+				whole := append(append([]byte{}, root[:]...), dom...)
+				data[0] = &rules.SignData{Domain: whole[cut:], Data: whole[:cut]}
+			}
 			if strings.HasSuffix(op.Kind, "-last") {
 				names[0], names[1] = names[1], names[0]
 				data[0], data[1] = data[1], data[0]
